@@ -217,6 +217,7 @@ type result struct {
 	val      int
 	list     []int
 	buf      []int
+	full     []int
 	n        int
 	t0, t1   int64
 	inv, ret int64
@@ -302,10 +303,14 @@ func (H) Execute(scAny any, cfg simrt.Config, st *core.Stats) (*simrt.Outcome, *
 		case "RecvQueued":
 			res.list = chans.RecvQueued(ch, sc.Limit)
 		case "RecvQueuedFull":
-			res.buf = make([]int, sc.Limit)
-			for i := range res.buf {
-				res.buf[i] = -1
+			// the caller's buffer is a window into a larger array (a reused scratch
+			// buffer): the limit is its length, not its capacity
+			spare := (sc.Cap + sc.Fill) % 4
+			res.full = make([]int, sc.Limit+spare)
+			for i := range res.full {
+				res.full[i] = -1
 			}
+			res.buf = res.full[:sc.Limit]
 			res.n = chans.RecvQueuedFull(ch, res.buf)
 		}
 		res.ret = simrt.Stamp()
@@ -381,9 +386,9 @@ func check(sc *Scenario, res *result, logs []peerLog, left []int, cancelAt, clos
 				return &core.Violation{Signature: "recvqueuedfull-count-out-of-range", Detail: fmt.Sprintf("returned %d for a buffer of %d", res.n, len(res.buf))}
 			}
 			got = res.buf[:res.n]
-			for i := res.n; i < len(res.buf); i++ {
-				if res.buf[i] != -1 {
-					return &core.Violation{Signature: "recvqueuedfull-wrote-past-count", Detail: fmt.Sprintf("returned %d but buf=%v (untouched slots were -1)", res.n, res.buf)}
+			for i := res.n; i < len(res.full); i++ {
+				if res.full[i] != -1 {
+					return &core.Violation{Signature: "recvqueuedfull-wrote-past-count", Detail: fmt.Sprintf("returned %d for a buffer of length %d, but the caller's array is now %v (untouched slots were -1)", res.n, len(res.buf), res.full)}
 				}
 			}
 		}
